@@ -23,6 +23,7 @@ def run(ctx, rep):
     rep.not_decided = ('that toposort_impl and the in-place sort_by_indices compute a permutation and a topological order for every graph — a statement about '
                        'index arithmetic in loops with no structural witness; it would need execution or symbolic exploration (a different technique family).')
     rep.trusted = ['syn', 'astq evaluator']
+    rep.section(g6, ctx, rep)
     f = ctx.fn('get_dependencies_from_type', file='topsort.rs')
     if not coverage.find_matches(f, 'SpecialRustType') and not coverage.find_matches(f, 'RustType'):
         delegated_traversal(ctx, rep, f)
@@ -49,6 +50,21 @@ def run(ctx, rep):
         rep.check(not nested_under_lookup, 'G1', 'get_dependencies_from_type:RustType::Generic:parameters-unconditional', 'arguments visited regardless of the base type',
                   "generic arguments are only inspected when the generic type itself is a typeshared item of this file (`if let Some(..) = types.get(id)` encloses the loop): `Foreign<Item>` / a type-mapped generic yields no edge to Item", {'file': f['file'], 'line': g_arm['line']})
     rep.section(g2_onwards, ctx, rep)
+
+
+def g6(ctx, rep):
+    """G6 (a permutation of what was parsed): between the collector and the drivers no statement removes, de-duplicates or
+    truncates the item vectors (shared with C03 S7) — the equality of items is the Rust identifier only, so "duplicates"
+    are distinct definitions."""
+    from . import c03
+    sub = core.Report('C11', rep.tier)
+    c03.s7(ctx, sub, emit.Types(ctx.astq))
+    n = 0
+    for o in sub.obligations:
+        if o['rule'] == 'S7':
+            n += 1
+            rep.obligations.append(dict(o, rule='G6', key='G6:' + o['key'].split(':', 1)[1]))
+    rep.floor('G6', 'item-vector discipline instances (from C03 S7)', n, 1)
 
 
 def delegated_traversal(ctx, rep, f):
